@@ -893,6 +893,9 @@ def _stream_parselen(ctx):
             cases.append(bytes(b))
     cases += [b"", b"0", b"00", b"000", b"00000", b"000000", b"0x10", b"-001", b"+001", b" 001", b"001 ", b"0_01", b"1_0",
               b"\n001", b"001\n", "٠٠٠١".encode()[:4], b"\xef\xbc\x91" + b"0"]
+    # all 4-byte strings over an alphabet of bytes that other hex readers treat specially (int(): sign,
+    # whitespace, underscore, 0x; bytes.fromhex(): whitespace; non-ASCII)
+    cases += [bytes(t) for t in itertools.product(b"09aF \t\n\r\x0b\x0c+-_xXg\x00\x7f\x80\xff", repeat=4)]
     cases += [rng.randbytes(4) for _ in range(ctx.budget(5000))]
     cases += [rng.randbytes(rng.choice([1, 2, 3, 5, 8])) for _ in range(ctx.budget(200))]
     outs = ctx.driver.batch([f"c19.parselen {hx(c)}" for c in cases])
